@@ -14,7 +14,7 @@ FUNCS = ["proforma_parser.parse", "_ProFormaParser.parse", "_ProFormaParser._par
 SPECIALS = "[](){}<>?-+/^@#|:,. "
 LETTERS = "ACDEFGHIKLMNPQRSTVWYBJOUXZ"
 
-TEMPLATES_Q = ["PE[1]P", "[1]-PE/2", "<13C>P(E)[a]"]
+TEMPLATES_Q = ["PE[1]P", "[1]-PE/2", "<13C>P(E)[a]", "P+E//K"]     # the last one: three chains, both separators
 TEMPLATES_T = ["PE[1]P", "[1]-PE/2", "<13C>P(E)[a]", "{Hex}[a]?PEP-[b]^2", "<[1]@C>C(?PE)[x|y#g1]/-2[+Na+]", "PE//KL+A[Formula:[13C2]H]"]
 
 
@@ -89,7 +89,7 @@ def build(tier: str) -> List[Cond]:
                                   functions=FUNCS[:10], bounds=f"template {tpl!r}, position {pos}, edited-in character over all of Unicode"))
     # valid strings continued by one or two characters of the notation alphabet (multipliers, charges, brackets opened late ...)
     NOTATION = "[](){}<>?-+/^@#|:,.0123456789P"
-    for tpl in (["PE/2[+Na+]", "{a}[b]?[c]-P(E)[d]-[e]", "<13C><[1]@P>P"] if tier == "quick" else templates + ["PE/2[+Na+]", "{a}[b]?[c]-P(E)[d]-[e]", "<13C><[1]@P>P"]):
+    for tpl in (["PE/2[+Na+]", "{a}[b]?[c]-P(E)[d]-[e]", "<13C><[1]@P>P", "P+E"] if tier == "quick" else templates + ["PE/2[+Na+]", "{a}[b]?[c]-P(E)[d]-[e]", "<13C><[1]@P>P", "P+E"]):
         for first in NOTATION[:20] + "2P":
             conds.append(Cond(oid=f"suffix/{tpl}/first={first}", clause="a valid string continued by up to two notation characters parses or raises ValueError",
                               module="vf.h.c09", func="o_suffix", shape=dict(template=tpl), sym=[("tail", "str")],
